@@ -2,7 +2,7 @@
    Property theorems only; every proof is `exact <lemma>` from proof/C01_ServerAuth.v (C01 and C02 share the
    model model/C01_ServerAuth.v).  masq : request -> response is the configured masquerade handler
    (http.NotFound when none is configured): ANY function; a response is status + header list + body. *)
-From Hy Require Import gen.ParamsC01 model.C01_ServerAuth proof.C01_ServerAuth proof.C02_Window.
+From Hy Require Import gen.ParamsC01 model.C01_ServerAuth proof.C01_ServerAuth proof.C02_Window model.C02_Abort proof.C02_Abort.
 From Coq Require Import String.
 Local Open Scope N_scope.
 
@@ -79,3 +79,74 @@ Theorem C02_undecided_auth_reveals_nothing : forall cfg masq acts s tr c r0,
       (in_auth (s' c) = Some r0 \/ exists id pad, a = AuthVerdict c false id pad)).
 Proof. exact undecided_auth_reveals_nothing. Qed.
 Print Assumptions C02_undecided_auth_reveals_nothing.
+
+(* ---- callbacks that do not return normally (model/C02_Abort.v): the masquerade handler may abort its response
+   (masq : request -> mres, MAbort sent = it panics - http.ErrAbortHandler or anything else - after having flushed
+   `sent`), Authenticator.Authenticate may panic (XAuthPanic), a logger may panic after an accepting verdict
+   (XLogPanic).  The HTTP/3 server recovers the panic and goes on serving the connection with the same handler. *)
+
+(* authMutex is released on every exit of the auth branch.  In any reachable state, for any step: if the step belongs to
+   the auth branch and ends its request - with the 233 response, the masquerade handler's response, the handler's abort,
+   a panic of the authenticator or of a logger - the connection's mutex is free afterwards; and the mutex is held
+   after a step only if it was held before and the step does not end the pending Authenticate call, or the step is the
+   ServeHTTP that has just entered Authenticate (its only observable is that call). *)
+Theorem C02_auth_lock_released_on_every_exit : forall cfg masq acts s tr,
+  xrun cfg masq init acts = Some (s, tr) ->
+  forall a s' o, xstep cfg masq s a = Some (s', o) ->
+    (in_auth_branch a = true -> existsb ends_request o = true -> in_auth (s' (xact_conn a)) = None) /\
+    (forall r0, in_auth (s' (xact_conn a)) = Some r0 ->
+       (in_auth (s (xact_conn a)) = Some r0 /\ ends_call a = false) \/
+       (in_auth (s (xact_conn a)) = None /\ is_auth_req r0 = true /\
+        exists pad, a = XBase (HttpReq (xact_conn a) r0 pad) /\
+                    o = [XO (ObsAuthCall (xact_conn a) (r_auth r0) (parse_u64 (r_ccrx r0)))])).
+Proof. exact lock_released_reachable. Qed.
+Print Assumptions C02_auth_lock_released_on_every_exit.
+
+(* No request on a live connection waits for ever, whatever happened to earlier requests.  In any reachable state of a
+   connection that is not closed: if the mutex is free, every request is taken up at once and ended at once (response or
+   abort) unless it is an auth request on an unauthenticated connection, which enters Authenticate; if an Authenticate
+   call is pending, every way it can end - accept, reject (the handler then answers or aborts), panic, accept followed
+   by a logger panic - is enabled, ends the request and frees the mutex. *)
+Theorem C02_no_request_waits_forever : forall cfg masq acts s tr c,
+  xrun cfg masq init acts = Some (s, tr) -> closed (s c) = false ->
+  (in_auth (s c) = None ->
+     forall r pad, exists s' o, xstep cfg masq s (XBase (HttpReq c r pad)) = Some (s', o) /\
+       (existsb ends_request o = true \/
+        (is_auth_req r = true /\ authed (s c) = false /\ in_auth (s' c) = Some r))) /\
+  (forall r0, in_auth (s c) = Some r0 ->
+     (forall ok id pad, exists s' o, xstep cfg masq s (XBase (AuthVerdict c ok id pad)) = Some (s', o) /\
+                                     in_auth (s' c) = None /\ existsb ends_request o = true) /\
+     (exists s' o, xstep cfg masq s (XAuthPanic c) = Some (s', o) /\ in_auth (s' c) = None /\ existsb ends_request o = true) /\
+     (forall id pad site, exists s' o, xstep cfg masq s (XLogPanic c id pad site) = Some (s', o) /\
+                                       in_auth (s' c) = None /\ existsb ends_request o = true)).
+Proof. exact no_request_starves_reachable. Qed.
+Print Assumptions C02_no_request_waits_forever.
+
+(* In every run with abnormal exits at any of its requests: a complete response is exactly what the masquerade handler
+   returns for that request, or it is the 233 response to an auth request and an accepting verdict on the same connection
+   precedes it; an aborted response is exactly the handler's own abort of that request (nothing beyond what the handler
+   had flushed), or the abort of an auth request during which the authenticator or a logger panicked, with nothing
+   delivered. *)
+Theorem C02_aborts_do_not_unmask : forall cfg masq acts s tr,
+  xrun cfg masq init acts = Some (s, tr) ->
+  forall pre x post, tr = pre ++ XE x :: post ->
+    match x with
+    | XO (ObsResp c r resp) =>
+        masq r = MResp resp \/
+        (is_auth_req r = true /\ (exists pad, resp = resp_auth_ok cfg pad) /\
+         exists a, In (XA a) pre /\ x_accepts a = Some c)
+    | XAbort c r sent =>
+        masq r = MAbort sent \/ (is_auth_req r = true /\ sent = None)
+    | _ => True
+    end.
+Proof. exact aborts_do_not_unmask. Qed.
+Print Assumptions C02_aborts_do_not_unmask.
+
+(* The extension changes nothing when every callback returns: with a handler that returns for every request the
+   extended step on a base action is the step of the model shared with C01 (so the theorems above this block speak
+   about the same transition system). *)
+Theorem C02_abort_model_conservative : forall cfg masq (m : request -> response) s b,
+  (forall r, masq r = MResp (m r)) ->
+  xstep cfg masq s (XBase b) = match step cfg m s b with Some (s', o) => Some (s', map XO o) | None => None end.
+Proof. exact xstep_conservative. Qed.
+Print Assumptions C02_abort_model_conservative.
